@@ -51,6 +51,10 @@ func (s *Sizes) Alignof(T types.Type) int64 {
 	if a < 1 {
 		return 1
 	}
+	// complex{64,128} are aligned like [2]float{32,64}.
+	if t, ok := T.Underlying().(*types.Basic); ok && t.Info()&types.IsComplex != 0 {
+		a /= 2
+	}
 	if a > s.MaxAlign {
 		return s.MaxAlign
 	}
@@ -119,8 +123,10 @@ func (s *Sizes) Sizeof(T types.Type) int64 {
 		}
 		offsets := s.Offsetsof(fields)
 		a := s.Alignof(T)
+		// gc: The last field of a non-zero-sized struct is not allowed to
+		// have size 0.
 		lsz := s.Sizeof(fields[n-1].Type())
-		if lsz == 0 {
+		if lsz == 0 && offsets[n-1] > 0 {
 			lsz = 1
 		}
 		z := offsets[n-1] + lsz
